@@ -245,6 +245,31 @@ def opLatEq (j : Json) : Except String Json := do
   let tight := ms.any fun m => decide (m.natAbs * 1000000 < (A.scale ^ 2).natAbs)
   pure (Json.mkObj [("eq", Json.bool (Pickle.latEq A B)), ("eq_rev", Json.bool (Pickle.latEq B A)), ("tight", Json.bool tight)])
 
+
+/-! ### C10: generators (index level) -/
+
+def jecs (x : G10.ECs) : List (String × Json) :=
+  [("edges", jlist jpairN (x.map (·.1))), ("cross", jlist jpairI (x.map (·.2)))]
+
+def opGen (j : Json) : Except String Json := do
+  let kind ← str (← field j "kind")
+  match kind with
+  | "tile" => do
+    let k ← nat (← field j "k"); let ue ← listOf pairN (← field j "uedges"); let uc ← listOf pairI (← field j "ucross")
+    let nx ← nat (← field j "nx"); let ny ← nat (← field j "ny")
+    if ue.length != uc.length then throw "cross-length"
+    pure (Json.mkObj (jecs (G10.tile k ue uc nx ny)))
+  | "honeycomb" => do
+    let n ← nat (← field j "n")
+    let nv := G10.nVertical n
+    pure (Json.mkObj (jecs (G10.honeycomb n nv) ++ [("coloring", jnats (G10.honeycombColouring n nv)), ("n_vertical", jnat nv)]))
+  | "hso" => do pure (Json.mkObj (jecs (G10.hso (← nat (← field j "n")))))
+  | "square" => do pure (Json.mkObj (jecs (G10.square (← nat (← field j "nx")) (← nat (← field j "ny")))))
+  | "single" => do pure (Json.mkObj (jecs (G10.singlePlaquette (← nat (← field j "n")))))
+  | "wheel" => do pure (Json.mkObj (jecs (G10.wheel (← nat (← field j "n")))))
+  | "ladder" => do pure (Json.mkObj (jecs (G10.ladder (← nat (← field j "n")))))
+  | _ => throw "bad-kind"
+
 def dispatch (op : String) (j : Json) : Except String Json :=
   match op with
   | "plaquettes" => opPlaquettes j
@@ -255,6 +280,7 @@ def dispatch (op : String) (j : Json) : Except String Json :=
   | "solve" => opSolve j
   | "surgery" => opSurgery j
   | "pickle" => opPickle j
+  | "gen" => opGen j
   | "lateq" => opLatEq j
   | _ => throw "bad-op"
 
